@@ -1,15 +1,15 @@
 SPECIFICATION MSpec
-CONSTANTS Kind = "channel"
+CONSTANTS Kind = "stream"
           Init_ = "c"
-          MaxElems = 1
-          Credits = {1}
+          MaxElems = 2
+          Credits = {1, 2}
           MaxGrants = 1
           HasPub = TRUE
           Slot = 0
           SidOff = 0
           AsImplemented = FALSE
-          Frag = 0
-          LibSource = TRUE
+          Frag = 10
+          LibSource = FALSE
 INVARIANT NoClauseFails
 INVARIANT DeliveredIsPrefixOfHanded
 INVARIANT FutureOnce
